@@ -1,12 +1,28 @@
 """property id -> rules, explanation of what is / is not decided"""
-from rules import r_coord, r_keyid, r_opcode
+from rules import r_coord, r_keyid, r_opcode, r_doaction
 
 PROPS = {
     "C01": {
-        "rules": [r_coord.run],
+        "rules": [r_coord.run, r_doaction.rule_state_push],
         "explanation": "Decides structural clauses of 'no stuck output': (R-COORD) every State variant created at a "
-                       "coordinate is removable by Release at that coordinate and the three coordinate predicates agree.",
+                       "coordinate is removable by Release at that coordinate and the three coordinate predicates agree; "
+                       "(R-STATE-PUSH) arms of do_action that create coordinate-keyed state do so on every path and the custom "
+                       "press handler only runs when its state was stored.",
         "not_decided": "bounded-time liveness over all histories; diff logic prev_keys/cur_keys; timeout arithmetic",
+    },
+    "C04": {
+        "rules": [r_coord.run, r_doaction.rule_state_push],
+        "explanation": "Narrow: decides the release half of layered remapping — every state a press creates is keyed on the "
+                       "coordinate (never the layer) and removed by Release at that coordinate (R-COORD); the key / layer / custom "
+                       "arms of do_action push their state on every path (R-STATE-PUSH).",
+        "not_decided": "equality with the layered-keymap model: search order of held layers, output ordering, one event per "
+                       "millisecond — functions of run-time values",
+    },
+    "C06": {
+        "rules": [r_doaction.rule_osh_arms],
+        "explanation": "Decides: every arm of do_action (21 Action variants) notifies the one-shot state machine of the press, "
+                       "delegates to an inner action, or defers the action (R-OSH-ARMS); macro Press/Tap events notify too.",
+        "not_decided": "which key is 'the next one', timeout arithmetic, stacking semantics — run-time values",
     },
     "C11": {
         "rules": [r_keyid.run_all],
